@@ -14,10 +14,15 @@
      and P (G k) (output of node k) holds;
    - `grow_tree` is the common part of both `fit_weak_learner`s (root, breadth-first growth) for an
      arbitrary split search `find`; the theorems about it therefore hold for both trees, for every
-     bootstrap weight vector `samples` and every choice of tried features (random forest, C06). *)
+     bootstrap weight vector `samples` and every choice of tried features (random forest, C06).
+   Proof files: ProofsGrow (growth invariant), ProofsReg / ProofsCls (leaf values), ProofsSort +
+   ProofsSorted (quick_argsort: permutation, sortedness over R), ProofsEndToEnd (orders computed by
+   the fit functions), ProofsGrowFull (internal nodes carry the split the search returned; why a leaf
+   is a leaf), ProofsOpt (regression: greedy optimality, completeness), ProofsOptCls + ProofsPure
+   (classification: optimality among boundary thresholds, purity). *)
 From Coq Require Import List Arith ZArith Bool Reals Lra Floats Lia.
 From SC Require Import Base.Num C05.Model C05.ProofsGrow C05.ProofsReg C05.ProofsCls C05.ProofsSort
-                       C05.ProofsSorted C05.ProofsEndToEnd.
+                       C05.ProofsSorted C05.ProofsEndToEnd C05.ProofsGrowFull C05.ProofsOpt C05.ProofsOptCls C05.ProofsPure.
 Import ListNotations.
 Local Open Scope nat_scope.
 
@@ -222,8 +227,7 @@ Theorem C05_leaf_value_classification_fit : forall lg2 crit x y md msl mss class
                   nth (output (nth n nodes (dnode 0))) (cvec x yi (length classes) (G n)) 0.
 Proof. exact leaf_value_classification_fit. Qed.
 
-(* Extensions that are stated but not proved; they are covered by the failing-input search only
-   (brute-force best split at every internal node, completeness of the growth, x 2^k invariance). *)
+(* ---- greedy optimality and completeness of the regression tree (exact reals) ---- *)
 (* squared-error reduction of splitting the rows counted by s at (feature j, threshold t) *)
 Definition sse_gain (x : list (list R)) (y : list R) (s : list nat) (j : nat) (t : R) : R :=
   let n := length x in
@@ -233,7 +237,15 @@ Definition sse_gain (x : list (list R)) (y : list R) (s : list nat) (j : nat) (t
 Definition admissible (x : list (list R)) (msl : nat) (s : list nat) (j : nat) (t : R) : Prop :=
   msl <= sum_nat (true_part ROps x s j (Some t)) /\ msl <= sum_nat (false_part ROps x s j (Some t)) /\
   0 < sum_nat (true_part ROps x s j (Some t)) /\ 0 < sum_nat (false_part ROps x s j (Some t)).
-Definition C05_regression_split_greedy_optimal_full_statement : Prop :=
+(* regression_split_greedy_optimal: at every internal node of a fitted regression tree the chosen
+   (feature, threshold) is admissible and its squared-error reduction is the largest among ALL
+   admissible single-feature real thresholds, for the rows counted by G n (= the training rows routed
+   to the node, C05_node_samples_invariant).  Any weights, any limits; the orders are hypotheses
+   here and are discharged by C05_argsort_columns_sorted (see the _fit version below).
+   Proof: C05/ProofsOpt.v (sweep invariant: the running best dominates every admissible threshold
+   whose first row above it has been passed) + C05/ProofsGrowFull.v (every internal node carries the
+   split that the search returned on its own sample vector). *)
+Theorem C05_regression_split_greedy_optimal :
   forall x y samples order md msl mss nodes d,
     length y = length x -> length samples = length x ->
     (forall j, j < length (hd [] x) -> sorted_order x j (nth j order [])) ->
@@ -244,7 +256,12 @@ Definition C05_regression_split_greedy_optimal_full_statement : Prop :=
           admissible x msl (G n) (split_feature (nth n nodes (dnode 0%R))) t0 /\
           forall j t, j < length (hd [] x) -> admissible x msl (G n) j t ->
             (sse_gain x y (G n) j t <= sse_gain x y (G n) (split_feature (nth n nodes (dnode 0%R))) t0)%R.
-Definition C05_growth_complete_without_depth_limit_full_statement : Prop :=
+Proof. exact regression_split_greedy_optimal. Qed.
+
+(* growth_complete_without_depth_limit: without a depth limit (the model's stand-in 65535 = u16::MAX,
+   not reached by a tree with fewer nodes) a node holding more than min_samples_split counted rows
+   stays a leaf only if no admissible single-feature threshold exists. *)
+Theorem C05_growth_complete_without_depth_limit :
   forall x y samples order msl mss nodes d,
     length y = length x -> length samples = length x ->
     (forall j, j < length (hd [] x) -> sorted_order x j (nth j order [])) ->
@@ -253,6 +270,152 @@ Definition C05_growth_complete_without_depth_limit_full_statement : Prop :=
     exists G D, tree_consistent ROps 0%R x msl (reg_out_ok x y) samples nodes G D /\
       forall n, n < length nodes -> leafb (nth n nodes (dnode 0%R)) = true -> mss < sum_nat (G n) ->
         forall j t, j < length (hd [] x) -> ~ admissible x msl (G n) j t.
+Proof. exact growth_complete_without_depth_limit. Qed.
+
+(* the same two statements for DecisionTreeRegressor::fit itself (orders computed by quick_argsort) *)
+Theorem C05_regression_split_greedy_optimal_fit :
+  forall x y md msl mss nodes d,
+    length y = length x ->
+    fit_regressor ROps x y md msl mss = Some (nodes, d) ->
+    exists G D, tree_consistent ROps 0%R x msl (reg_out_ok x y) (repeat 1 (length x)) nodes G D /\
+      forall n, n < length nodes -> leafb (nth n nodes (dnode 0%R)) = false ->
+        forall t0, split_value (nth n nodes (dnode 0%R)) = Some t0 ->
+          admissible x msl (G n) (split_feature (nth n nodes (dnode 0%R))) t0 /\
+          forall j t, j < length (hd [] x) -> admissible x msl (G n) j t ->
+            (sse_gain x y (G n) j t <= sse_gain x y (G n) (split_feature (nth n nodes (dnode 0%R))) t0)%R.
+Proof.
+  intros x y md msl mss nodes d Hy H.
+  apply fit_regressor_weak_orders in H as (order & _ & Ho & H).
+  exact (regression_split_greedy_optimal x y _ order md msl mss nodes d Hy (repeat_length 1 (length x)) Ho H).
+Qed.
+
+Theorem C05_growth_complete_without_depth_limit_fit :
+  forall x y msl mss nodes d,
+    length y = length x ->
+    fit_regressor ROps x y None msl mss = Some (nodes, d) -> length nodes < 65535 ->
+    exists G D, tree_consistent ROps 0%R x msl (reg_out_ok x y) (repeat 1 (length x)) nodes G D /\
+      forall n, n < length nodes -> leafb (nth n nodes (dnode 0%R)) = true -> mss < sum_nat (G n) ->
+        forall j t, j < length (hd [] x) -> ~ admissible x msl (G n) j t.
+Proof.
+  intros x y msl mss nodes d Hy H Hlen.
+  apply fit_regressor_weak_orders in H as (order & _ & Ho & H).
+  exact (growth_complete_without_depth_limit x y _ order msl mss nodes d Hy (repeat_length 1 (length x)) Ho H Hlen).
+Qed.
+
+(* ---- classification tree: greedy optimality / completeness (exact reals) ----
+   Vocabulary (C05/ProofsOptCls.v):
+   - `cls_gain lg2 crit x yi k s j t` : impurity(parent) - (tc/n) impurity(true part) - (fc/n) impurity(false part)
+     for the configured criterion, computed from the class-count vectors `cvec` of the rows counted by s
+     and of the two parts of the split at (feature j, threshold t);
+   - `boundary x yi s j t` : t separates two counted rows that are adjacent in value (no counted row
+     strictly between them) and have DIFFERENT classes;
+   - `distinct_feature x j` : the values of feature j are pairwise distinct (the property's side condition).
+   What is proved (any criterion, any `lg2`, any limits, any weights): the chosen threshold is admissible
+   and attains the largest impurity decrease among all admissible BOUNDARY thresholds of all features -
+   these are exactly the candidates the sweep examines (it skips the midpoint between two consecutive
+   rows of the same class) - internal nodes are not pure, and without a depth limit an impure node with
+   more than min_samples_split rows stays a leaf only if no admissible boundary threshold exists.
+   What is missing for the full statement: the purely mathematical fact that for min_samples_leaf = 1
+   a best boundary threshold is best among ALL admissible thresholds (concavity of Gini / entropy /
+   classification error along a run of rows of one class; `boundary_point_property`).  It is isolated
+   as the single hypothesis of C05_classification_split_greedy_optimal_conditional. *)
+Theorem C05_classification_split_greedy_optimal_partial :
+  forall lg2 crit x yi k samples order msl mss,
+    length yi = length x -> length samples = length x -> (forall r, nth r yi 0 < k) ->
+    (forall j, j < length (hd [] x) -> sorted_order x j (nth j order [])) ->
+    (forall j, j < length (hd [] x) -> distinct_feature x j) ->
+    forall md nodes d,
+    fit_classifier_with_order ROps lg2 crit x yi k samples (fun _ => seq 0 (length (hd [] x))) order md msl mss
+      = Some (nodes, d) ->
+    exists G D, tree_consistent ROps 0 x msl (cls_out_ok x yi k) samples nodes G D /\
+      forall n, n < length nodes -> leafb (nth n nodes (dnode 0)) = false ->
+        is_pure x yi (G n) = false /\
+        forall t0, split_value (nth n nodes (dnode 0)) = Some t0 ->
+          admissible x msl (G n) (split_feature (nth n nodes (dnode 0))) t0 /\
+          forall j t, j < length (hd [] x) -> admissible x msl (G n) j t -> boundary x yi (G n) j t ->
+            (cls_gain lg2 crit x yi k (G n) j t <=
+             cls_gain lg2 crit x yi k (G n) (split_feature (nth n nodes (dnode 0%nat))) t0)%R.
+Proof. exact classification_split_boundary_optimal. Qed.
+
+Theorem C05_classification_growth_complete_partial :
+  forall lg2 crit x yi k samples order msl mss,
+    length yi = length x -> length samples = length x -> (forall r, nth r yi 0 < k) ->
+    (forall j, j < length (hd [] x) -> sorted_order x j (nth j order [])) ->
+    (forall j, j < length (hd [] x) -> distinct_feature x j) ->
+    forall nodes d,
+    fit_classifier_with_order ROps lg2 crit x yi k samples (fun _ => seq 0 (length (hd [] x))) order None msl mss
+      = Some (nodes, d) ->
+    length nodes < 65535 ->
+    exists G D, tree_consistent ROps 0 x msl (cls_out_ok x yi k) samples nodes G D /\
+      forall n, n < length nodes -> leafb (nth n nodes (dnode 0)) = true ->
+        is_pure x yi (G n) = false -> mss < sum_nat (G n) ->
+        forall j t, j < length (hd [] x) -> admissible x msl (G n) j t -> boundary x yi (G n) j t -> False.
+Proof. exact classification_growth_boundary_complete. Qed.
+
+(* `is_pure` (the model's transliteration of the purity loop) means: all counted rows share one class *)
+Theorem C05_is_pure_spec : forall T (x : list (list T)) (yi s : list nat),
+  (is_pure x yi s = true -> forall r r', r < length x -> r' < length x -> 0 < nth r s 0 -> 0 < nth r' s 0 ->
+     nth r yi 0 = nth r' yi 0) /\
+  (is_pure x yi s = false -> exists r r', r < length x /\ r' < length x /\ 0 < nth r s 0 /\ 0 < nth r' s 0 /\
+     nth r yi 0 <> nth r' yi 0).
+Proof. exact @is_pure_spec. Qed.
+
+(* the same for DecisionTreeClassifier::fit (class indices and orders computed by the model) *)
+Theorem C05_classification_split_greedy_optimal_partial_fit :
+  forall lg2 crit x y md msl mss classes nodes d,
+    length y = length x ->
+    (forall j, j < length (hd [] x) -> distinct_feature x j) ->
+    fit_classifier ROps lg2 crit x y md msl mss = Some (classes, nodes, d) ->
+    exists yi, length yi = length x /\
+      (forall i, i < length x -> nth i yi 0 < length classes /\ nth (nth i yi 0) classes 0%R = nth i y 0%R) /\
+      exists G D, tree_consistent ROps 0 x msl (cls_out_ok x yi (length classes)) (repeat 1 (length x)) nodes G D /\
+        forall n, n < length nodes -> leafb (nth n nodes (dnode 0)) = false ->
+          is_pure x yi (G n) = false /\
+          forall t0, split_value (nth n nodes (dnode 0)) = Some t0 ->
+            admissible x msl (G n) (split_feature (nth n nodes (dnode 0))) t0 /\
+            forall j t, j < length (hd [] x) -> admissible x msl (G n) j t -> boundary x yi (G n) j t ->
+              (cls_gain lg2 crit x yi (length classes) (G n) j t <=
+               cls_gain lg2 crit x yi (length classes) (G n) (split_feature (nth n nodes (dnode 0%nat))) t0)%R.
+Proof. exact classification_split_boundary_optimal_fit. Qed.
+
+(* the full statement of the property's classifier clause (min_samples_leaf = 1, distinct values,
+   lg2 = the real binary logarithm): best among ALL admissible thresholds.  NOT proved: it follows from
+   the partial theorem and `boundary_point_property` (next theorem), which is the missing mathematics;
+   the clause is covered by the failing-input search (brute-force best split at every internal node). *)
+Definition C05_classification_split_greedy_optimal_full_statement : Prop :=
+  forall crit x yi k samples order md mss nodes d,
+    let lg2 := (fun p : R => ln p / ln 2)%R in
+    length yi = length x -> length samples = length x -> (forall r, nth r yi 0 < k) ->
+    (forall j, j < length (hd [] x) -> sorted_order x j (nth j order [])) ->
+    (forall j, j < length (hd [] x) -> distinct_feature x j) ->
+    fit_classifier_with_order ROps lg2 crit x yi k samples (fun _ => seq 0 (length (hd [] x))) order md 1 mss
+      = Some (nodes, d) ->
+    exists G D, tree_consistent ROps 0 x 1 (cls_out_ok x yi k) samples nodes G D /\
+      forall n, n < length nodes -> leafb (nth n nodes (dnode 0)) = false ->
+        forall t0, split_value (nth n nodes (dnode 0)) = Some t0 ->
+          admissible x 1 (G n) (split_feature (nth n nodes (dnode 0))) t0 /\
+          forall j t, j < length (hd [] x) -> admissible x 1 (G n) j t ->
+            (cls_gain lg2 crit x yi k (G n) j t <=
+             cls_gain lg2 crit x yi k (G n) (split_feature (nth n nodes (dnode 0%nat))) t0)%R.
+
+Theorem C05_classification_split_greedy_optimal_conditional :
+  forall lg2 crit, boundary_point_property lg2 crit ->
+  forall x yi k samples order md mss nodes d,
+    length yi = length x -> length samples = length x -> (forall r, nth r yi 0 < k) ->
+    (forall j, j < length (hd [] x) -> sorted_order x j (nth j order [])) ->
+    (forall j, j < length (hd [] x) -> distinct_feature x j) ->
+    fit_classifier_with_order ROps lg2 crit x yi k samples (fun _ => seq 0 (length (hd [] x))) order md 1 mss
+      = Some (nodes, d) ->
+    exists G D, tree_consistent ROps 0 x 1 (cls_out_ok x yi k) samples nodes G D /\
+      forall n, n < length nodes -> leafb (nth n nodes (dnode 0)) = false ->
+        forall t0, split_value (nth n nodes (dnode 0)) = Some t0 ->
+          admissible x 1 (G n) (split_feature (nth n nodes (dnode 0))) t0 /\
+          forall j t, j < length (hd [] x) -> admissible x 1 (G n) j t ->
+            (cls_gain lg2 crit x yi k (G n) j t <=
+             cls_gain lg2 crit x yi k (G n) (split_feature (nth n nodes (dnode 0%nat))) t0)%R.
+Proof. exact classification_split_optimal_conditional. Qed.
+
+(* Still stated but not proved (covered by the failing-input search only): x 2^k invariance. *)
 Definition C05_scale_invariance_pow2_full_statement : Prop :=
   forall (x : list (list float)) (y : list float) md msl mss (e : Z),
     (0 < e)%Z ->
@@ -268,6 +431,17 @@ Example C05_regressor_instance :
     fit_regressor FOps [[1;5];[2;4];[3;9];[4;1];[5;7];[6;2]]%float [1;1.5;3;3.5;10;11]%float (Some 3) 1 2
       = Some (nodes, d) /\ length nodes = 5 /\ wf_treeb nodes = true.
 Proof. eexists. eexists. split; [vm_compute; reflexivity|]. split; vm_compute; reflexivity. Qed.
+
+(* hypotheses of the optimality / completeness theorems: no depth limit, an internal root, leaves *)
+Example C05_regressor_unlimited_instance :
+  exists nodes d,
+    fit_regressor FOps [[1;5];[2;4];[3;9];[4;1];[5;7];[6;2]]%float [1;1.5;3;3.5;10;11]%float None 1 2
+      = Some (nodes, d) /\ length nodes < 65535 /\ leafb (nth 0 nodes (dnode 0%float)) = false /\
+    leafb (nth (length nodes - 1) nodes (dnode 0%float)) = true.
+Proof.
+  eexists. eexists. split; [vm_compute; reflexivity|]. split; [apply Nat.ltb_lt; vm_compute; reflexivity|].
+  split; vm_compute; reflexivity.
+Qed.
 
 Example C05_classifier_instance :
   exists classes nodes d,
@@ -292,6 +466,19 @@ Proof.
               first [rewrite (proj2 (Rleb_true a b)) by lra | rewrite (proj2 (Rleb_false a b)) by lra]
           end; cbn -[Rleb]).
   reflexivity.
+Qed.
+
+(* the classifier side conditions are satisfiable: distinct values, and a boundary threshold between
+   the two rows of different class *)
+Example C05_distinct_boundary_instance :
+  distinct_feature [[1];[2];[4]]%R 0 /\ boundary [[1];[2];[4]]%R [0;0;1] [1;1;1] 0 3%R.
+Proof.
+  split.
+  - intros r r' Hr Hr' E. cbn in Hr, Hr'.
+    destruct r as [|[|[|r]]]; destruct r' as [|[|[|r']]]; try lia; try reflexivity;
+      unfold X, getx in E; cbn in E; lra.
+  - exists 1, 2. cbn [length]. repeat split; try lia; try (unfold X, getx; cbn; lra); try (cbn; lia).
+    intros r Hr _. destruct r as [|[|[|r]]]; try lia; unfold X, getx; cbn; [left|left|right]; lra.
 Qed.
 
 Example C05_sorted_order_instance : sorted_order [[3];[1];[2]]%R 0 [1; 2; 0].
